@@ -2,7 +2,7 @@
 # usage: tools/seedtest.sh <patch.diff> <check id>...   -- run checks against a scratch worktree of /repo with the patch applied
 set -e
 PATCH="$1"; shift
-WT=/tmp/seedwt
+WT=${SEEDWT:-/tmp/seedwt}
 if [ ! -d "$WT" ]; then git -C /repo worktree add -q "$WT" HEAD; fi
 git -C "$WT" checkout -q --detach "$(git -C /repo rev-parse HEAD)"
 git -C "$WT" checkout -q -- .
